@@ -1490,6 +1490,24 @@ class Engine:
             self.add_obl('bounds', st, z3.And(ne != 0, z3.Or(soff < 0, soff + ne > os_.cap, z3.UGT(ne, z3.BitVecVal(1 << 60, 64)))), 'memcpy load outside capacity of %s' % src.obj, where)
             st.mem.o[dst.obj] = od.with_arr(arr)
             return
+        if isinstance(od, RecObj) and isinstance(os_, ArrayObj) and os_.kind == ('i', 8) and z3.is_bv_value(n):
+            # bytes of a (string literal) array copied into a record, e.g. the small-string buffer of a std::string local
+            nb = n.as_long()
+            soff = z3.simplify(bv64(src.off))
+            if not z3.is_bv_value(soff):
+                raise Unsupported('memcpy from an array at a symbolic offset into a record')
+            for k in [k for k, (_, w) in od.cells.items() if dst.off <= k < dst.off + nb]:
+                del od.cells[k]
+            for i in range(nb):
+                od.cells[dst.off + i] = (z3.simplify(z3.Select(os_.arr, z3.BitVecVal(soff.as_long() + i, 64))), 1)
+            return
+        if isinstance(od, ArrayObj) and isinstance(os_, RecObj) and od.kind == ('i', 8) and z3.is_bv_value(n):
+            nb = n.as_long()
+            arr = od.arr
+            for i in range(nb):
+                arr = z3.Store(arr, dst.off + i, self._byte_at(os_, src.off + i, src.obj))
+            st.mem.o[dst.obj] = od.with_arr(arr)
+            return
         raise Unsupported('memcpy between %s and %s' % (type(od).__name__, type(os_).__name__))
 
     def memset(self, fr, ins, st, dst, byte, n):
